@@ -83,6 +83,18 @@ func Arr48(b []byte) (a [common.SeedSize]uint8) { copy(a[:], b); return }
 // MsgLens are message lengths that sit on hash-rate / block boundaries of the schemes.
 var MsgLens = []int{0, 1, 2, 7, 31, 32, 33, 39, 40, 41, 63, 64, 65, 71, 72, 73, 103, 104, 105, 135, 136, 137, 167, 168, 169, 199, 200, 201, 271, 272, 273}
 
+// LongMsgLens are lengths around buffer sizes an implementation might pool or cap (4 KiB, 8 KiB, 64 KiB).
+var LongMsgLens = []int{3967, 3968, 3969, 4000, 4095, 4096, 4097, 5000, 8191, 8192, 8193, 20000, 65536, 70001}
+
+// LifeMsgLen picks the message length for the i-th message of a deterministic stream: mostly the short
+// boundary lengths, every 16th message a long one.
+func LifeMsgLen(ms uint64, i int) int {
+	if (ms+uint64(i))%16 == 0 {
+		return LongMsgLens[int((ms/16+uint64(i))%uint64(len(LongMsgLens)))]
+	}
+	return MsgLens[int((ms+uint64(i)*5)%uint64(len(MsgLens)))]
+}
+
 // Msg draws a message: boundary lengths over-represented, content random / constant.
 func Msg(maxLen int) *rapid.Generator[[]byte] {
 	return rapid.Custom(func(t *rapid.T) []byte {
